@@ -712,3 +712,161 @@ func ruleSectionsApplied(c *Ctx) {
 	})
 	c.check(len(bad) == 0 && n > 0, "sections-applied", name, pos, fmt.Sprintf("%d paths: compress, caches, upstreams, locations and servers are each reset from the configuration just read, then server.Start()", n), strings.Join(uniq(bad), " || "), n)
 }
+
+// ruleUpstreamContract (thorough tier, whole-program SSA): re-confirms in the
+// pinned dependency github.com/vicanso/upstream the selection contract that the
+// wiring rules assume: only servers whose status is healthy are candidates,
+// backups are used only when no healthy primary exists, every policy picks from
+// that candidate list, and round-robin advances by one per request.
+func ruleUpstreamContract(c *Ctx) {
+	if !c.P.Whole {
+		return
+	}
+	const dep = "github.com/vicanso/upstream"
+	fns := map[string]*ssa.Function{}
+	for fn := range ssautilAll(c.P) {
+		if fn.Pkg != nil && fn.Pkg.Pkg.Path() == dep {
+			fns[fn.Name()] = fn
+		}
+	}
+	need := []string{"getDivideAvailableUpstreamList", "enhanceGetAvailableUpstreamList", "GetAvailableUpstream", "Next", "PolicyFirst", "PolicyRandom", "PolicyRoundRobin", "PolicyLeastconn"}
+	for _, n := range need {
+		if fns[n] == nil || fns[n].Blocks == nil {
+			c.undecided("upstream-contract", dep, "-", "dependency function "+n+" not found in the whole-program SSA")
+			return
+		}
+	}
+	bad := []string{}
+	n := 0
+	// (a) candidates are appended only under status == UpstreamHealthy
+	healthy := int64(-1)
+	if k, ok := fns["Next"].Pkg.Pkg.Scope().Lookup("UpstreamHealthy").(*types.Const); ok {
+		if v, ok2 := constantInt(k); ok2 {
+			healthy = v
+		}
+	}
+	div := fns["getDivideAvailableUpstreamList"]
+	appends := 0
+	for _, b := range div.Blocks {
+		for _, in := range b.Instrs {
+			call, ok := in.(*ssa.Call)
+			if !ok {
+				continue
+			}
+			if bi, ok := call.Call.Value.(*ssa.Builtin); !ok || bi.Name() != "append" {
+				continue
+			}
+			appends++
+			guarded := false
+			for _, g := range div.Blocks {
+				iff, ok := g.Instrs[len(g.Instrs)-1].(*ssa.If)
+				if !ok {
+					continue
+				}
+				bo, ok := iff.Cond.(*ssa.BinOp)
+				if !ok || bo.Op.String() != "==" {
+					continue
+				}
+				isH := false
+				for _, op := range []ssa.Value{bo.X, bo.Y} {
+					if cst, ok := op.(*ssa.Const); ok && cst.Value != nil && cst.Int64() == healthy {
+						isH = true
+					}
+				}
+				if isH && g.Succs[0].Dominates(b) {
+					guarded = true
+				}
+			}
+			if !guarded {
+				bad = append(bad, "a server is put on a candidate list without its status being tested for 'healthy'")
+			}
+		}
+	}
+	if appends != 2 {
+		bad = append(bad, fmt.Sprintf("%d candidate-list appends found (expected primary and backup)", appends))
+	}
+	n += appends
+	// (b) backups only when there is no healthy primary
+	c.P.Simulate(fns["enhanceGetAvailableUpstreamList"], SimConfig{Inline: func(*ssa.Function, int) bool { return false }}, func(pr *PathResult) {
+		n++
+		if len(pr.Results) != 1 {
+			return
+		}
+		r := pr.Results[0]
+		empty := false
+		known := false
+		for _, l := range pr.Conds {
+			if l.Atom.Op == "eq" && l.Atom.Args[0].Op == "len" && l.Atom.Args[0].Args[0].Op == "ext" && l.Atom.Args[0].Args[0].Name == "0" {
+				known, empty = true, l.Pol
+			}
+		}
+		if !known {
+			bad = append(bad, "the candidate choice does not depend on whether a healthy primary exists")
+			return
+		}
+		want := "0"
+		if empty {
+			want = "1"
+		}
+		if !(r.Op == "ext" && r.Name == want) {
+			bad = append(bad, fmt.Sprintf("with primaries empty=%v the candidate list is %s", empty, prettyTerm(r)))
+		}
+	})
+	// (c) a pick is an element of the candidate list, or nil when it is empty
+	for _, name := range []string{"GetAvailableUpstream", "PolicyLeastconn"} {
+		c.P.Simulate(fns[name], SimConfig{Inline: func(*ssa.Function, int) bool { return false }}, func(pr *PathResult) {
+			n++
+			if len(pr.Results) != 1 {
+				return
+			}
+			r := pr.Results[0]
+			if r.IsNil() {
+				return
+			}
+			okPick := r.Op == "init" && r.Args[0].Op == "ia" && r.Args[0].Args[0].Op == "call" && r.Args[0].Args[0].Fn == fns["enhanceGetAvailableUpstreamList"]
+			if !okPick {
+				bad = append(bad, name+" returns "+prettyTerm(r)+", not an element of the candidate list")
+			}
+		})
+	}
+	// (d) every policy goes through those two
+	for _, name := range []string{"PolicyFirst", "PolicyRandom", "PolicyRoundRobin"} {
+		if !callsFunc(fns[name], fns["GetAvailableUpstream"], 0) {
+			bad = append(bad, name+" does not pick through GetAvailableUpstream")
+		}
+	}
+	rr := false
+	c.P.Simulate(fns["PolicyRoundRobin"], SimConfig{Inline: func(*ssa.Function, int) bool { return false }}, func(pr *PathResult) {
+		n++
+		for _, e := range pr.Events {
+			if e.Kind == "call" && e.Callee == fns["GetAvailableUpstream"] && e.Args[1].Op == "call" && strings.HasSuffix(e.Args[1].Name[:strings.Index(e.Args[1].Name+"#", "#")], ".Inc") {
+				rr = true
+			}
+		}
+	})
+	if !rr {
+		bad = append(bad, "round-robin does not advance its index by one per pick")
+	}
+	nextOK := true
+	c.P.Simulate(fns["Next"], SimConfig{Inline: func(*ssa.Function, int) bool { return false }}, func(pr *PathResult) {
+		n++
+		if len(pr.Results) != 2 {
+			return
+		}
+		r := pr.Results[0]
+		if !(r.Op == "call" && r.Fn != nil && strings.HasPrefix(r.Fn.Name(), "Policy")) {
+			nextOK = false
+		}
+	})
+	if !nextOK {
+		bad = append(bad, "Next() returns something other than a policy's pick")
+	}
+	c.check(len(bad) == 0, "upstream-contract", dep, dep, fmt.Sprintf("%d paths/sites of the pinned dependency: candidates are the healthy servers, backups only without a healthy primary, every policy picks an element of that list (nil when empty), round-robin increments per pick", n), strings.Join(uniq(bad), " || "), n)
+}
+
+func constantInt(k *types.Const) (int64, bool) {
+	s := k.Val().ExactString()
+	var v int64
+	_, err := fmt.Sscan(s, &v)
+	return v, err == nil
+}
